@@ -355,6 +355,40 @@ type hstate struct {
 	replaced  int // a new connection replaced one the relay had not seen dead (two connectors raced)
 	firstAdd  map[interface{}]int64 // conn -> unix nano of its first keepSafe.Add
 	redoSpan  int64                 // max over redo collections of (GetAll time - first Add of that conn), ms
+	ds        *dsGate               // dead-send gate (nil = not armed)
+}
+
+// dsGate forces the interleaving "the connection dies after the relay's aliveness check at the top of an
+// iteration but before that iteration hands its line over, and conn.In cannot take the line":
+//
+//	phase 1  armed: the next line the connection writer takes from In is held in its hand (hd.recv)
+//	phase 2  writer held: the first line the relay takes from `src` (relay.in | relay.unspool) for that
+//	         connection while its In is full stops the relay there (after the loop-top check), the
+//	         endpoint closes the connection and the relay is let go once checkEOF has marked it dead
+//	phase 3  fired: when the relay reports the connection dead (relay.dead) the writer is released
+//
+// Every wait has a deadline: the code under test is never blocked for ever; a gate that does not get
+// through its phases is reported (event dsgate) and is a machinery error of the check, not a verdict.
+type dsGate struct {
+	src     string
+	cut     func()
+	phase   int
+	conn    interface{}
+	line    string // the line that met the dead connection
+	held    string // the line in the writer's hand
+	inLen   int
+	inCap   int
+	outcome string
+	heldCh  chan struct{}
+	closed  chan struct{}
+	fired   chan struct{}
+	release chan struct{}
+	o1, o2  sync.Once
+}
+
+func newDsGate(src string, cut func()) *dsGate {
+	return &dsGate{src: src, cut: cut, phase: 1, heldCh: make(chan struct{}), closed: make(chan struct{}),
+		fired: make(chan struct{}), release: make(chan struct{})}
 }
 
 var hookStates sync.Map
@@ -382,6 +416,23 @@ func hook(name string, args ...interface{}) {
 	switch name {
 	case "hd.recv":
 		st.inHand[args[1]] = string(args[2].([]byte))
+		if ds := st.ds; ds != nil && ds.phase == 1 {
+			ds.phase = 2
+			ds.conn = args[1]
+			ds.held = string(args[2].([]byte))
+			st.mu.Unlock()
+			close(ds.heldCh)
+			select {
+			case <-ds.release:
+			case <-time.After(15 * time.Second):
+				st.mu.Lock()
+				if ds.outcome == "" {
+					ds.outcome = "writer-hold-expired"
+				}
+				st.mu.Unlock()
+			}
+			return
+		}
 		if atomic.LoadInt32(&st.armed) == 1 {
 			atomic.StoreInt32(&st.armed, 2)
 			st.gateConn = args[1]
@@ -421,6 +472,13 @@ func hook(name string, args ...interface{}) {
 		st.curDead = false
 	case "relay.dead":
 		st.curDead = true
+		if ds := st.ds; ds != nil && ds.phase >= 2 && args[1] == ds.conn {
+			ds.o2.Do(func() { close(ds.release) })
+		}
+	case "conn.close":
+		if ds := st.ds; ds != nil && ds.phase >= 2 && args[1] == ds.conn {
+			ds.o1.Do(func() { close(ds.closed) })
+		}
 	case "redo.start":
 		if atomic.LoadInt32(&st.armed) == 2 && args[1] == st.gateConn {
 			select {
@@ -454,7 +512,45 @@ func hook(name string, args ...interface{}) {
 			}
 		}
 	}
+	if ds := st.ds; ds != nil && ds.phase == 2 && name == ds.src && args[1] == ds.conn {
+		// relay goroutine, after this iteration's aliveness check, before the line is handed to the connection
+		if c, _ := args[1].(*destination.Conn); c != nil && len(c.In) == cap(c.In) {
+			ds.phase = 3
+			ds.line = string(args[2].([]byte))
+			ds.inLen, ds.inCap = len(c.In), cap(c.In)
+			st.mu.Unlock()
+			ds.cut() // the endpoint closes the connection ...
+			out := "fired"
+			select {
+			case <-ds.closed: // ... and checkEOF has marked it dead
+			case <-time.After(10 * time.Second):
+				out = "close-not-seen"
+			}
+			st.mu.Lock()
+			ds.outcome = out
+			st.mu.Unlock()
+			close(ds.fired)
+			return
+		}
+	}
 	st.mu.Unlock()
+}
+
+func (st *hstate) armDs(src string, cut func()) *dsGate {
+	ds := newDsGate(src, cut)
+	st.mu.Lock()
+	st.ds = ds
+	st.mu.Unlock()
+	return ds
+}
+
+func (st *hstate) dsInfo() (outcome, line, held string, inLen, inCap int) {
+	st.mu.Lock()
+	defer st.mu.Unlock()
+	if st.ds == nil {
+		return "not-armed", "", "", 0, 0
+	}
+	return st.ds.outcome, st.ds.line, st.ds.held, st.ds.inLen, st.ds.inCap
 }
 
 func (st *hstate) setHow(h string) {
@@ -587,7 +683,7 @@ var runTag = fmt.Sprintf("p%dt%d", os.Getpid(), time.Now().UnixNano()%100000)
 
 type c06Scn struct {
 	ID       int    `json:"id"`
-	Kind     string `json:"kind"`  // refuse | synhole | blackhole | slow | healthy | closing | mixed | switch
+	Kind     string `json:"kind"`  // refuse | synhole | blackhole | slow | healthy | closing | mixed | switch | stall
 	Route    string `json:"route"` // all | first | chash
 	ConnBuf  int    `json:"connbuf"`
 	IoBuf    int    `json:"iobuf"`
@@ -596,6 +692,7 @@ type c06Scn struct {
 	LineLen  int    `json:"linelen"`
 	RcvBuf   int    `json:"rcvbuf"`
 	CloseAft int64  `json:"close_after"`
+	StallMs  int    `json:"stall_ms"` // kind stall: how long the endpoint keeps not reading once the writer is blocked
 	Switches []struct {
 		At   int    `json:"at"`
 		Mode string `json:"mode"`
@@ -745,8 +842,98 @@ func runC06(s c06Scn) []ev {
 	var maxNs, over int64
 	var handed int64
 	done := make(chan struct{})
+	hand := func(i int) {
+		buf := mkLine(prefix, i, suffix)
+		t0 := time.Now()
+		atomic.StoreInt64(&callStart, t0.UnixNano())
+		r.Dispatch(buf)
+		dt := int64(time.Since(t0))
+		atomic.StoreInt64(&callStart, 0)
+		if dt > atomic.LoadInt64(&maxNs) {
+			atomic.StoreInt64(&maxNs, dt)
+		}
+		if dt > int64(5*time.Second) {
+			atomic.AddInt64(&over, 1)
+		}
+		atomic.StoreInt64(&handed, int64(i))
+	}
+	// kind stall: the endpoint accepts and reads normally, then stops reading (the connection stays open)
+	// until conn.In, the io buffer and the kernel buffers are full and the connection writer is really
+	// blocked, keeps not reading for StallMs (many flush periods) while traffic goes on, then resumes and
+	// reads to the end.  It never closes.  Returns what was observed (event stall).
+	var stallEv ev
+	stall := func() ev {
+		x := dests[0]
+		key := x.d.Key
+		i := 0
+		pre, post := s.Lines/8, s.Lines/8
+		for i < pre {
+			i++
+			hand(i)
+		}
+		atomic.StoreInt32(&x.e.mode, mBlackhole)
+		t0 := time.Now()
+		c0 := readCounters(key)
+		window := time.Duration(2*s.FlushMs) * time.Millisecond
+		if window < 30*time.Millisecond {
+			window = 30 * time.Millisecond
+		}
+		// blocked = nothing written to the connection for `window` while lines were being dropped
+		lastOut, lastOutT, dropsThen := c0.out, t0, c0.slowConn+c0.down
+		saturated := false
+		budget := s.Lines - post - 2100
+		for i < budget && time.Since(t0) < 30*time.Second {
+			i++
+			hand(i)
+			if i%4 != 0 {
+				continue
+			}
+			c := readCounters(key)
+			drops := c.slowConn + c.down
+			now := time.Now()
+			if c.out != lastOut {
+				lastOut, lastOutT, dropsThen = c.out, now, drops
+			} else if now.Sub(lastOutT) >= window && drops > dropsThen {
+				saturated = true
+				break
+			}
+			if drops > c0.slowConn+c0.down {
+				time.Sleep(100 * time.Microsecond) // dropping already: no need to burn the line budget
+			}
+		}
+		satAt, tSat := i, time.Now()
+		cSat := readCounters(key).sub(x.base)
+		hold := time.Duration(s.StallMs) * time.Millisecond
+		pace := hold / 2000
+		if pace < 200*time.Microsecond {
+			pace = 200 * time.Microsecond
+		}
+		for n := 0; time.Since(tSat) < hold; n++ {
+			if n < 2000 && i < s.Lines-post {
+				i++
+				hand(i)
+			}
+			time.Sleep(pace)
+		}
+		held := time.Since(tSat)
+		cRes := readCounters(key).sub(x.base)
+		acc := atomic.LoadInt64(&x.e.accepted)
+		atomic.StoreInt32(&x.e.mode, mHealthy) // resumes; reads everything from now on
+		for j := 0; j < post && i < s.Lines; j++ {
+			i++
+			hand(i)
+		}
+		return ev{"ev": "stall", "scn": s.ID, "saturated": saturated, "stall_at": pre, "blocked_at": satAt,
+			"fill_ms": int(tSat.Sub(t0) / time.Millisecond), "held_ms": int(held / time.Millisecond), "flush_ms": s.FlushMs,
+			"out_blocked": int(cSat.out), "out_resume": int(cRes.out), "slow_conn_resume": int(cRes.slowConn),
+			"down_resume": int(cRes.down), "accepted_resume": int(acc), "online_resume": x.d.Snapshot().Online}
+	}
 	go func() {
 		defer close(done)
+		if s.Kind == "stall" {
+			stallEv = stall()
+			return
+		}
 		si := 0
 		for i := 1; i <= s.Lines; i++ {
 			for si < len(s.Switches) && s.Switches[si].At == i {
@@ -755,19 +942,7 @@ func runC06(s c06Scn) []ev {
 				}
 				si++
 			}
-			buf := mkLine(prefix, i, suffix)
-			t0 := time.Now()
-			atomic.StoreInt64(&callStart, t0.UnixNano())
-			r.Dispatch(buf)
-			dt := int64(time.Since(t0))
-			atomic.StoreInt64(&callStart, 0)
-			if dt > atomic.LoadInt64(&maxNs) {
-				atomic.StoreInt64(&maxNs, dt)
-			}
-			if dt > int64(5*time.Second) {
-				atomic.AddInt64(&over, 1)
-			}
-			atomic.StoreInt64(&handed, int64(i))
+			hand(i)
 		}
 	}()
 	stuck := false
@@ -802,6 +977,9 @@ wait:
 	if stuck {
 		return evs
 	}
+	if stallEv != nil {
+		evs = append(evs, stallEv)
+	}
 	// steady-phase accounting, at quiescence (polled)
 	for di, x := range dests {
 		key := x.d.Key
@@ -812,6 +990,8 @@ wait:
 		case "slow":
 			steady = "healthy" // throttled but up the whole time; let it catch up, then account
 			atomic.StoreInt32(&x.e.mode, mHealthy)
+		case "stall":
+			steady = "paused" // connected the whole time, did not read for a while, has resumed
 		case "refuse", "synhole":
 			steady = "down"
 		}
@@ -827,6 +1007,13 @@ wait:
 				return atomic.LoadInt64(&e.distinct)+c.slowConn >= int64(want)
 			}, func() int64 { return atomic.LoadInt64(&e.total) + readCounters(key).slowConn })
 			// let stragglers (duplicates would show here) arrive
+			time.Sleep(50 * time.Millisecond)
+		} else if steady == "paused" {
+			e := x.e
+			quiesced = pollProgress(30*time.Second, 15*time.Minute, func() bool {
+				c := readCounters(key).sub(x.base)
+				return atomic.LoadInt64(&e.distinct)+c.slowConn+c.down >= int64(want)
+			}, func() int64 { c := readCounters(key); return atomic.LoadInt64(&e.total) + c.slowConn + c.down })
 			time.Sleep(50 * time.Millisecond)
 		} else if steady == "down" {
 			quiesced = poll(30*time.Second, func() bool { return readCounters(key).sub(x.base).down >= int64(want) })
@@ -1030,6 +1217,44 @@ func runC07(s c07Scn, spoolRoot string, prog *hx.Log) []ev {
 				h := atomic.LoadInt64(&next)
 				return atomic.LoadInt64(&e.distinct)+c.slowConn+c.slowSpool >= h
 			})
+		case "dsarm": // arm the dead-send gate (see dsGate): dsarm in | dsarm unspool
+			st.armDs("relay."+fields[1], e.closeConns)
+		case "dshold": // hand lines one at a time until the connection writer holds one in its hand
+			held := false
+			for j := 0; j < n && !held; j++ {
+				send(1)
+				select {
+				case <-st.ds.heldCh:
+					held = true
+				case <-time.After(100 * time.Millisecond):
+				}
+			}
+			if !held {
+				select {
+				case <-st.ds.heldCh:
+				case <-time.After(10 * time.Second):
+					evs = append(evs, ev{"ev": "dsgate", "scn": s.ID, "src": st.ds.src, "connbuf": s.ConnBuf, "outcome": "writer-not-held"})
+				}
+			}
+		case "dswait": // until the gate has been through its phases (deadlines everywhere)
+			out := ""
+			select {
+			case <-st.ds.fired:
+				select {
+				case <-st.ds.release:
+				case <-time.After(10 * time.Second):
+					out = "relay-did-not-see-dead"
+				}
+			case <-time.After(25 * time.Second):
+				out = "not-fired"
+			}
+			o, line, heldLine, il, ic := st.dsInfo()
+			if out == "" {
+				out = o
+			}
+			evs = append(evs, ev{"ev": "dsgate", "scn": s.ID, "src": st.ds.src, "connbuf": s.ConnBuf, "outcome": out,
+				"line": strings.TrimPrefix(line, prefix), "held": strings.TrimPrefix(heldLine, prefix), "in_len": il, "in_cap": ic})
+			evs = append(evs, ev{"ev": "cut", "scn": s.ID, "inc": e.inc, "handed": int(atomic.LoadInt64(&next))})
 		case "f10": // gated schedule of TLC's counterexample (see hook)
 			atomic.StoreInt32(&st.armed, 1)
 			send(1)
